@@ -73,7 +73,9 @@ func c15Text(c C15Case) string {
 	b.WriteString("/off {\n  publish off\n  pull { path /pull/off }\n}\n")
 	b.WriteString("/nodirect {\n  publish {\n    direct off\n  }\n  pull { path /pull/nodirect }\n}\n")
 	b.WriteString("/m {\n  application \"app1\"\n  endpoint_name \"e1\"\n  pull { path /pull/m }\n}\n")
-	b.WriteString("outbound /out {\n  deliver \"https://out.example.org/h\" {\n  }\n}\n")
+	// a route-level limit on a route the ingress listener never serves: Admin publish must honour it all the same
+	// (seed C15-15: the limits lookup copied the "not served by ingress" filter and fell back to the defaults)
+	b.WriteString("outbound /out {\n  max_body 3b\n  deliver \"https://out.example.org/h\" {\n  }\n}\n")
 	return b.String()
 }
 
@@ -132,14 +134,14 @@ func genC15Case() *rapid.Generator[C15Case] {
 				it.Route = "/m"
 			}
 			limit := c.MaxBody
-			if it.Route == "/small" {
+			if it.Route == "/small" || it.Route == "/out" {
 				limit = 3
 			}
 			it.PayLen = rapid.SampledFrom([]int{0, 1, limit - 1, limit}).Draw(t, "pay_len")
 			if it.PayLen < 0 {
 				it.PayLen = 0
 			}
-			if it.Route == "/small" && rapid.IntRange(0, 2).Draw(t, "over_route_limit") == 0 && invalidAt[i] == "" {
+			if (it.Route == "/small" || it.Route == "/out") && rapid.IntRange(0, 2).Draw(t, "over_route_limit") == 0 && invalidAt[i] == "" {
 				// fits the global default but not this route's own max_body
 				invalidAt[i] = "payload-over-route-limit"
 			}
@@ -269,14 +271,14 @@ func c15Build(c C15Case) (items []map[string]any, invalid map[int]string) {
 				m["target"] = "pull"
 			}
 		case "payload-over-route-limit":
-			if r, _ := m["route"].(string); r == "/small" && c.MaxBody > 3 {
+			if r, _ := m["route"].(string); (r == "/small" || r == "/out") && c.MaxBody > 3 {
 				m["payload_b64"] = base64.StdEncoding.EncodeToString([]byte(strings.Repeat("x", 4)))
 			} else {
 				kind = ""
 			}
 		case "payload-too-large":
 			lim := c.MaxBody
-			if r, _ := m["route"].(string); r == "/small" {
+			if r, _ := m["route"].(string); r == "/small" || r == "/out" {
 				lim = 3
 			}
 			m["payload_b64"] = base64.StdEncoding.EncodeToString([]byte(strings.Repeat("x", lim+1)))
